@@ -49,6 +49,7 @@ type Delivery struct {
 	Mut      []Mutation       `json:"mut,omitempty"`
 	DupOf    int              `json:"dup_of,omitempty"` // 1+ID of the delivery this one duplicates
 	Probe    bool             `json:"probe,omitempty"`
+	BadHeader bool            `json:"bad_header,omitempty"` // Raw is a datagram whose header must be rejected: nothing decoded, counted or published
 
 	// computed by finalize (never serialised)
 	payload   []byte
@@ -313,6 +314,12 @@ func finalizePipe(p *PipePlan) {
 				}
 			default:
 				d.payload = d.encode(nil)
+				if d.BadHeader && !ex.Hostile && len(d.Mut) == 0 {
+					d.hostile = false
+					d.wantPub, d.wantDec = 0, 0
+					d.class = "bad-header"
+					break
+				}
 				d.hostile = true
 				d.wantPub, d.wantDec = -1, -1
 				d.class = "hostile"
